@@ -9,6 +9,9 @@ import AdfObdd.CliCounter
     decision-tree dump, natural-lexical sort). `C15.driver_world_faithful` is `cli_text_faithful` for
     exactly this world.
 
+    `clibadrun <mode> <text>` (the malformed text behind a `clibad` request): `CliM.runText` on it, answer
+    `= exit=… printed=…` - this is what executes the REJECTION branches of `runText` against the binary.
+
     Request: `clirun <mode> <sort> <flags> <heu> <perm> <order> <labels> <text>`; answer
     `= exit=… wellformed=1 lines=… printed=…`: `lines` = every printed interpretation in ORIGINAL
     statement order (as before), `printed` = stdout line by line as the binary prints it (hex of the
@@ -16,9 +19,11 @@ import AdfObdd.CliCounter
     candidates is the external library's `sat_valuations` order), as before.
 
     The truth-table library is feasible up to `ttLimit` statements. Above it (`cliwide`: 65–130
-    statements) the naive arm is still `CliM.runText` (it does not use the library); the biodivine and
-    hybrid arms FALL BACK to the older `Cli.run` on the framework rebuilt from the `adf`/`ac` lines
-    (`Drv.cliRun`), its vectors rendered with `CliM.render` under the names `labels[order[k]]`. -/
+    statements) the naive arm is still `CliM.runText drvWorld` (it does not use the library); the
+    biodivine and hybrid arms run THE SAME FUNCTION `CliM.runText` on `CliM.storeWorld` - the world whose
+    BDD library is the project's own verified store (`Bio.storeLib`, lawful: `CliMP.storeWorldOK`,
+    `CliMP.storeWorld_dump`; `C15.store_world_faithful`). (Until review 2 these arms fell back to
+    `Cli.run`, whose `.biodivine` arm is the native one.) -/
 namespace Drv
 open CliM
 
@@ -47,12 +52,12 @@ def cliRunText (a : AdfSt) (mode sort flags heu : String) (perm order : List Nat
   let inv : Inv := ⟨m, f, parseSorting sort, h⟩
   let unordered := f.stmrew || f.stmrew2
   let canonSeq := fun (xs : List String) => if unordered then Spec.sortStrings xs else xs
-  if n ≤ ttLimit || m == .naive then
-    -- the text-level model, arm by arm
-    let out := runText drvWorld 1000000 inv text
+  -- the text-level model, arm by arm, on a world `Wd`
+  let viaText := fun {T : Type} (Wd : World T) =>
+    let out := runText Wd 1000000 inv text
     -- the vectors behind the printed lines (the same functions `runText` is made of)
-    let st := parsed drvWorld inv text
-    let blocks := (st.bind (runParsed drvWorld 1000000 inv)).getD []
+    let st := parsed Wd inv text
+    let blocks := (st.bind (runParsed Wd 1000000 inv)).getD []
     let names := (st.map (·.namelist)).getD []
     -- original statement `i` is printed at the position of its label in the (sorted) name list
     let back := fun (v : List Nat) =>
@@ -60,8 +65,17 @@ def cliRunText (a : AdfSt) (mode sort flags heu : String) (perm order : List Nat
     let lines := blocks.flatMap fun b => b.2.map back
     (s!"exit={out.exit} wellformed=1 lines={orDashC (canonSeq lines)} printed={orDashC (canonSeq (out.stdout.map hexOfLine))}",
      cliSpecLine a m f)
+  if n ≤ ttLimit || m == .naive then viaText drvWorld
+  -- beyond truth-table size (biodivine / hybrid arm with more than `ttLimit` statements, `cliwide`): the
+  -- same function `CliM.runText`, on the world whose library is the own store (`CliM.storeWorld`)
+  else if !f.stmrew2 then viaText storeWorld
   else
-    -- FALLBACK beyond truth-table size (biodivine / hybrid arm with more than `ttLimit` statements)
+    -- REMAINING FALLBACK: `--stmrew2` beyond truth-table size in the biodivine / hybrid arm.
+    -- `stable_representation()` conjoins `ac_i <-> x_i` in statement order; on the store-based library
+    -- this conjunction took 2-3 minutes for 128 statements (the verified `ite` is ~30 times slower than
+    -- biodivine's `apply`; same diagrams), too slow for the check. These requests keep the older
+    -- `Cli.run` on the framework rebuilt from the `adf`/`ac` lines (where `.biodivine` is the native
+    -- arm and `--stmrew2` is `stableAll`), rendered with `CliM.render` under the names `labels[order[k]]`.
     let inv' := fun (i : Nat) => order.idxOf i
     let s0 := buildVars n Store.init
     let r := FromParser.placeCompile s0 (List.replicate n 0) (presentedItems a perm inv')
@@ -81,6 +95,21 @@ def cliTextStep (a : AdfSt) (l : String) (ws : List String) : Option (List Strin
       let r := cliRunText a mode sort flags heu perm order labels text
       some [l, s!"= {r.1}", s!"~ {r.2}"]
     | _, _, _, _ => some [l, "= bad-request"]
+  -- `clibadrun <mode> <text>`: the malformed TEXT of a `clibad` request (emitted by the harness after the
+  -- `~ rejected` line; flags are `--grd --com --stm`, no sorting): the answer is `CliM.runText` on that text,
+  -- so the rejection branches of `runText` (`parsed … = none`, `runParsed … = none`) are EXECUTED against
+  -- the binary instead of the constant answer of `clibad`. If the model's parser ACCEPTED such a text
+  -- of a framework beyond truth-table size the library arms would not be runnable: then the answer
+  -- says so (a difference from the binary either way, since the binary rejects).
+  | ["clibadrun", mode, text] =>
+    match Prs.unhexText text with
+    | some text =>
+      let inv : Inv := ⟨parseMode mode, { grd := true, com := true, stm := true }, .none, .simple⟩
+      if (ParserM.parse text).isNone || a.n ≤ ttLimit || inv.mode == .naive then
+        let out := runText drvWorld 1000000 inv text
+        some [l, s!"= exit={out.exit} printed={orDashC (out.stdout.map hexOfLine)}"]
+      else some [l, "= model-accepts-text-beyond-table-size"]
+    | none => some [l, "= bad-request"]
   -- `clicounter <mode> <sort> <flags> <nai|mem|other|-> <zeromemo> <text>`: the model of `--counter`
   -- (`CliM.runTextC`; zeromemo = 1: features `adhoccounting` without `adhoccountmodels`, the default);
   -- not emitted by the harness generator yet (cross-checked against the binary by a script)
